@@ -50,11 +50,11 @@ CHECKS = {
     "C08": ("region-containment proof per path partition (abstract interpretation + Fourier-Motzkin), table agreement, base-case/inductive-step analysis of the year loop",
             "is_gregorian_valid accepts only inside / rejects only outside the statement's region (month lengths, 4/100/400 rule, leap-second instants from the IERS rows); tables; maybe_from_gregorian = 365(y-1900) d +/- one day per leap loop-year + cumulative days + time of day - scale offset, Err on invalid input, no panic.",
             "3.C08"),
-    "C07": ("constant agreement with the NAIF kernel file + expression-DAG shape comparison (abstract interpretation, sin uninterpreted) + operand-flow/sign rules",
-            "PARTIAL (necessary conditions): NAIF/TDB constants equal the kernel's and the statement's; delta_et_tai and inner_g are exactly the closed forms as expression DAGs; both directions of ET and TDB apply the same correction with opposite signs, mirrored 32.184 s shift and J2000 offset; the correction is evaluated within 1 s of the epoch's own seconds -/+ 32.184 s (interval evaluation of the refinement loop's float term), which bounds the induced error below 1 ns. The 30 ns / 20 ns / 100 ns accuracy clauses themselves are floating-point error bounds and are NOT decided.",
+    "C07": ("constant agreement with the NAIF kernel file + expression-DAG shape comparison (abstract interpretation, sin uninterpreted) + operand-flow/sign rules + static error budget (interval, derivative and rounding-error analysis of the closed-form trees)",
+            "NAIF/TDB constants equal the kernel's and the statement's; delta_et_tai and inner_g are exactly the closed forms as expression DAGs; both directions of ET and TDB apply the same correction with opposite signs, mirrored 32.184 s shift and J2000 offset, evaluated at the epoch's own seconds plus a bounded offset (interval evaluation of the refinement loop). The 30 ns / 20 ns / 100 ns clauses are decided as a static error budget (R3): Lipschitz constant, float evaluation error (rounding-error analysis, sin assumed accurate to 2^-50) and amplitude of the closed-form trees + evaluation-point offsets + to_seconds rounding (C18.R6) + ns truncation (C18.R2) give 11.8 ns <= 30 ns, 11.8 / 1.0 ns <= 20 ns round trip, and a 99 ns margin for order beyond 100 ns, over +/-10 000 years. What the refinement iteration converges to is not examined (only how far it can move the evaluation point).",
             "3.C07"),
     "C18": ("finite-map/table agreement + decision-table extraction over float comparison terms + reachability of panics / loop bounds by abstract interpretation + static rounding-error and forward-difference analysis of the float expression tree of every path (standard model of IEEE-754 arithmetic, exact rational bounds)",
-            "PARTIAL: factor tables of Unit x f64 / Unit x i64 / in_seconds agree and match the statement; Unit<->u8 inverse; Unit x f64 saturates by the documented three-way decision and hands trunc(q*factor) to the exact integer constructors; no panic and bounded loops for any f64 in Unit x f64, to_seconds/to_unit, from_* and Duration x f64; in Duration x f64 the integer converted is the one the integrality test certified (same rounding function) and the test's tolerance is relative (<= 2 eps) or bounded by 1 ns over 10 000 years; Duration -> float: for every path of to_seconds and of to_unit per unit, |result - exact| <= 8u*max(|exact|, 1 s) (derived: 2.6u / <= 4.7u), correct sign, zero to zero, and monotone non-decreasing over [MIN, MAX] (regions tile, forward differences >= 0, seams ordered). NOT decided: the error clauses of float -> Duration ('exactly the product below 2^53') and of Duration x f64.",
+            "PARTIAL: factor tables of Unit x f64 / Unit x i64 / in_seconds agree and match the statement; Unit<->u8 inverse; Unit x f64 saturates by the documented three-way decision and hands trunc(q*factor) to the exact integer constructors; no panic and bounded loops for any f64 in Unit x f64, to_seconds/to_unit, from_* and Duration x f64; in Duration x f64 the integer converted is the one the integrality test certified (same rounding function) and the test's tolerance is relative (<= 2 eps) or bounded by 1 ns over 10 000 years; Duration -> float: for every path of to_seconds and of to_unit per unit, |result - exact| <= 8u*max(|exact|, 1 s) (derived: 2.6u / <= 4.7u), correct sign, zero to zero, and monotone non-decreasing over [MIN, MAX] (regions tile, forward differences >= 0, seams ordered). Unit x f64 is by construction trunc(fl(q*factor)) with the exact factor (R1+R2), i.e. the statement's definition; NOT decided: the accuracy of Duration x f64 beyond R4/R5.",
             "3.C18"),
     "C11": ("abstract interpretation with division axioms; table-chain agreement (writer/reader); E7 format-template decoding over all Display path partitions",
             "decompose: weighted sum of the seven integer outputs == |count|, ranges, sign; Display unit strings -> UNITS slots -> compose_f64 parameters -> TimeUnits methods -> the same weights; all 25 spellings; Display prints '-' iff negative, '0 ns' iff zero, exactly the non-zero components in order with single spaces; serde via Display/FromStr.",
